@@ -97,7 +97,7 @@ def run(ctx):
             r1.fail('case-mapping/siblings', FS, 'to_lowercase and to_uppercase construct their result differently (%s vs %s)' % (a, b))
     else:
         r1.fail('anchor/case-mapping', FS, 'to_lowercase / to_uppercase not found')
-    r1.need(5)
+    r1.need(3)
 
     # ---------------- R18.2 (MIR: comparison facts dominating the call, whatever their spelling)
     r2 = ctx.rule('R18.2', 'substring/substr are called only after a bounds test on the start index')
